@@ -356,6 +356,10 @@ def join(a, b):
         return Deg(s, a.rank if a.rank == b.rank else None) if len(s) <= MAXSUP else Top("support too large")
     if isinstance(a, Tup) and isinstance(b, Tup) and len(a.items) == len(b.items):
         return Tup([join(x, y) for x, y in zip(a.items, b.items)])
+    if isinstance(a, ShapeV) and isinstance(b, ShapeV):
+        if a.rank == b.rank and a.dims is not None and b.dims is not None and all(getattr(x, "sup", 0) == getattr(y, "sup", 1) for x, y in zip(a.dims, b.dims)):
+            return a
+        return ShapeV(a.rank if a.rank == b.rank else None)
     if isinstance(a, Lst) and isinstance(b, Lst):
         n = min(len(a.items), len(b.items))
         items = [join(x, y) for x, y in zip(a.items[:n], b.items[:n])]
@@ -814,6 +818,13 @@ def t_range(args, kw, node):
 
 
 def t_zip(args, kw, node):
+    # structured zip: lists with the same explicit prefix length are zipped element-wise, tails with tails
+    if args and all(isinstance(a, Lst) for a in args):
+        n = min(len(a.items) for a in args)
+        if all(len(a.items) == n for a in args) and (all(a.tail is not None for a in args) or all(a.tail is None for a in args)):
+            items = [Tup([a.items[i] for a in args]) for i in range(n)]
+            tail = Tup([a.tail for a in args]) if args[0].tail is not None else None
+            return Lst(items, tail)
     return Lst([], Tup([elem(a) for a in args]))
 
 
@@ -990,7 +1001,7 @@ class ShapeV(V):
 
 NP = {
     "dot": t_dot, "matmul": t_dot, "kron": t_kron, "vstack": t_stack, "hstack": t_stack, "concatenate": t_stack,
-    "stack": t_stack, "column_stack": t_stack, "array": t_array, "asarray": t_array, "zeros": t_zero,
+    "stack": t_stack, "column_stack": t_stack, "block": lambda a, k, n: withrank(num(a[0]), 2), "row_stack": t_stack, "array": t_array, "asarray": t_array, "zeros": t_zero,
     "empty": t_zero, "zeros_like": t_zeros_like, "empty_like": t_zeros_like, "ones": t_ones, "ones_like": t_ones_like,
     "full": t_full, "eye": t_eye, "identity": t_eye, "diag": t_diag, "sqrt": t_sqrt, "abs": t_abs, "absolute": t_abs,
     "real": t_same, "imag": t_same, "conj": t_same, "conjugate": t_same, "transpose": t_same, "squeeze": t_same,
